@@ -40,8 +40,8 @@ SCHED_PLANS = {
     "C14": [("stop", 250, 5000), ("stoppop", 80, 1500), ("stop@free", 150, 3000), ("base@free", 50, 1000), ("manual", 60, 1000), ("none", 60, 1000), ("base", 60, 1000)],
     "C15": [("fault", 250, 5000), ("latefault", 80, 1500), ("base", 40, 500)],
     "C16": SAFE + FIND,
-    "C17": [("queue", 250, 5000), ("overtall", 60, 1000), ("manualqueue", 100, 2000), ("latequeue", 80, 1500), ("pop", 40, 800)],
-    "C18": [("pop", 300, 6000), ("tall", 40, 600), ("base", 60, 1000), ("heap", 40, 800)],
+    "C17": [("queue", 250, 5000), ("overtall", 60, 1000), ("manualqueue", 100, 2000), ("latequeue", 80, 1500), ("pop", 40, 800), ("popqueue", 60, 1000)],
+    "C18": [("pop", 300, 6000), ("tall", 40, 600), ("base", 60, 1000), ("heap", 40, 800), ("popqueue", 80, 1500)],
 }
 
 
@@ -472,7 +472,7 @@ def term_part(prop, tier, seed):
         states = sum(r["states"] for r in d)
         trans = sum(r["transitions"] for r in d)
         binary = core.build_harness(wd)
-        fams = [("pop", 150, 3000), ("base", 80, 1500), ("queue", 40, 800)] if prop == "C18" else [("base", 100, 2000), ("pop", 100, 2000), ("queue", 40, 800)]
+        fams = [("pop", 150, 3000), ("base", 80, 1500), ("queue", 40, 800), ("popqueue", 80, 1500)] if prop == "C18" else [("base", 100, 2000), ("pop", 100, 2000), ("queue", 40, 800), ("popqueue", 50, 1000)]
         scs = gen.batch(seed + 7, [(f, q if tier == "quick" else t) for f, q, t in fams])
         for sc_ in scs:
             for prog_ in sc_["clients"]:
